@@ -16,7 +16,7 @@ from __future__ import annotations
 import collections
 import random
 
-from harness import common, oplib, tlc
+from harness import common, lib, oplib, tlc
 from checks import c08
 
 common.setup_repo_path()
@@ -301,6 +301,34 @@ def replay_ops_threaded(chk, h, skip, threads):
   return True
 
 
+def chained_threads_failure(chk):
+  """Two named stages, each with its own worker threads, a long source; the second stage fails on element 5 with
+  skipping disabled: the error surfaces with its cause and the helper threads of BOTH stages end."""
+  import threading
+  import time
+  from ml_metrics._src.chainables import io, transform
+  for t1, t2 in ((1, 1), (2, 1), (1, 0)):
+    before = {t.ident for t in threading.enumerate()}
+    p1 = transform.TreeTransform.new(name='s1', num_threads=t1).data_source(io.SequenceDataSource(list(range(400)))).apply(fn=lib.ident)
+    p2 = transform.TreeTransform.new(name='s2', **(dict(num_threads=t2) if t2 else {})).apply(fn=lib.FailOn({5}, exc=KeyError, then=lib.ident))
+    out, err = _run(p1.chain(p2), None, False, source=True)
+    chk.replayed()
+    ctx = dict(kind='chained-threads-failure', threads=(t1, t2))
+    if err is None or 'KeyError' not in _chain(err):
+      chk.violation('chained-threads:strict:error-not-surfaced', f'num_threads=({t1},{t2}): delivered {len(out)} elements, error {_chain(err) if err else None}', ctx)
+    del err
+    deadline = time.time() + 3
+    left = []
+    while time.time() < deadline:
+      left = [t for t in threading.enumerate() if t.ident not in before and t.is_alive()]
+      if not left:
+        break
+      time.sleep(0.01)
+    if left:
+      chk.violation('chained-threads:strict:threads-left', f'num_threads=({t1},{t2}): 3 s after the error reached the caller these helper threads are still alive: '
+                    f'{sorted(t.name for t in left)}', ctx)
+
+
 def threads_fail_while_other_slow(chk):
   """num_threads = 2, one element raises while the other worker is still busy and the consumer is already waiting:
   strict mode must surface the error (with its cause), skipping must deliver the slow element - never a hang."""
@@ -427,6 +455,7 @@ def body(chk):
         chk.replayed()
   chk.count('source_configs', n_src)
   threads_fail_while_other_slow(chk)
+  chained_threads_failure(chk)
   chk.add_samples([dict(n=h['n'], s=h['s'], k=h['k'], b=h['b'], bad=h['bad']) for h in hs[:2]])
   chk.assumptions += ['skippable errors are ValueError / TypeError (iter_utils._IGNORE_ERROR_TYPES); every failing function call surfaces as ValueError',
                       'batch functions fail iff their batch contains a bad row; rows are ints, row r maps to r + 100']
